@@ -89,8 +89,8 @@ class _TsExact:
             return [T('B', f'(bvsge n {ps.bv64_lit(lo)})'), T('B', f'(bvsle n {ps.bv64_lit(hi)})')]
         return [T('B', f'(fp.geq t {ps.f64_lit(lo)})'), T('B', f'(fp.leq t {ps.f64_lit(hi)})')]
 
-    def violation(self, label):
-        """SMT-LIB Bool: the failure condition `label` (exact)."""
+    def violation(self, label, lo=0):
+        """SMT-LIB Bool: the failure condition `label` (exact) for inputs >= lo."""
         T, ps, be = self.ps.T, self.ps, self.be
         if self.dir == 'x2p2x':
             if label == 'ts_xml_py_xml_changed':
@@ -99,11 +99,19 @@ class _TsExact:
             return T('B', f'(or (bvsgt {d} {ps.bv64_lit(1)}) (bvslt {d} {ps.bv64_lit(-1)}))')
         # |t2 - t| >= bound/1000 decided EXACTLY (TwoSum decomposition of the difference, see FP64.exact_diff_ge)
         b = Fraction(1 if label == 'ts_py_xml_py_drift_ge_1ms' else 2, 1000)
+        if lo >= 1:
+            # t >= 1: if t/2 <= t2 <= 2t the binary64 subtraction is exact (Sterbenz) and, the difference being a double,
+            # |t2 - t| >= b  <=>  |t2 (-) t| >= smallest double >= b;  otherwise |t2 - t| >= t/2 >= 0.5 s: a violation anyway
+            import math
+            c_hi = float(b) if Fraction(float(b)) >= b else math.nextafter(float(b), math.inf)
+            half, two = ps.f64_lit(0.5), ps.f64_lit(2.0)
+            near = f'(and (fp.leq (fp.mul RNE t {half}) {self.t2.s}) (fp.leq {self.t2.s} (fp.mul RNE t {two})))'
+            return T('B', f'(or (not {near}) (fp.geq (fp.abs (fp.sub RNE {self.t2.s} t)) {ps.f64_lit(c_hi)}))')
         return be.or_(be.exact_diff_ge(self.t2, self.var, b), be.exact_diff_ge(self.var, self.t2, b))
 
     def script(self, lo, hi, label):
         bad_req = self.be.not_(self.req)
-        viol = self.be.or_(bad_req, self.violation(label))
+        viol = self.be.or_(bad_req, self.violation(label, lo))
         gv = [self.var, self.m, bad_req] + ([self.t2] if self.dir == 'p2x2p' else [])
         return self.be.script(self.range_(lo, hi) + [viol], get_values=gv), len(gv)
 
@@ -144,9 +152,18 @@ class _TsAbstract:
 
     def prove(self, lo, hi, label, timeout_ms=20000):
         """-> 'unsat' (failure condition impossible for every real input in [lo, hi] under the model) | 'sat' | 'unknown'."""
+        import math
         z3, be = self.z3, self.be
         lo_v, hi_v = (lo, hi) if self.dir == 'x2p2x' else (be.val(Fraction(lo)), be.val(Fraction(hi)))
-        base = [self.var >= lo_v, self.var <= hi_v] + be.side + self.assumes
+        base = [self.var >= lo_v, self.var <= hi_v] + self.assumes
+        if hi >= 1 and lo >= 1:
+            k = int(math.floor(math.log2(lo)))
+            base += be.rounding_constraints(k - 11, int(math.floor(math.log2(hi))) + 12)
+            if self.dir == 'p2x2p':     # the input is a binary64 number: a point of its binade's grid
+                jt = z3.Int('grid_t')
+                base.append(self.var == z3.ToReal(jt) * be.val(Fraction(2) ** (k - 52)))
+        else:
+            base += be.rounding_constraints()
         bad_req = z3.Not(z3.And(*be.requires)) if be.requires else z3.BoolVal(False)
         if self.dir == 'x2p2x':
             d = self.m - self.var
@@ -155,13 +172,23 @@ class _TsAbstract:
             d = self.t2 - self.var
             b = be.val(Fraction(1 if label == 'ts_py_xml_py_drift_ge_1ms' else 2, 1000))
             viol = z3.Or(d >= b, -d >= b)
-        r, _ = be.check(base + [z3.Or(bad_req, viol)], timeout_ms)
+        r, m = be.check(base + [z3.Or(bad_req, viol)], timeout_ms)
+        self.candidate = None
+        if r == 'sat':
+            try:
+                v = be.model_value(m, self.var)
+                self.candidate = int(v) if self.dir == 'x2p2x' else (float(v) if Fraction(float(v)) == v else None)
+            except Exception:  # noqa: BLE001
+                self.candidate = None
         return r
 
     def admits(self, inp, out, timeout_ms=10000):
         """Translator validation: the real function's behaviour on a concrete input must be a behaviour of the model."""
         z3, be = self.z3, self.be
-        c = [self.var == (inp if self.dir == 'x2p2x' else be.val(Fraction(inp)))] + be.side + self.assumes
+        import math
+        mag = abs(float(inp))
+        win = (int(math.floor(math.log2(mag))) - 11, int(math.floor(math.log2(mag))) + 12) if mag >= 1 else ()
+        c = [self.var == (inp if self.dir == 'x2p2x' else be.val(Fraction(inp)))] + be.rounding_constraints(*win) + self.assumes
         if self.dir == 'x2p2x':
             c.append(self.m == out)
         else:
@@ -233,8 +260,19 @@ def ob_ts(ctx):
     # --- tier 1: abstraction per slab; tier 2: exact query for every slab the abstraction cannot settle (thorough: all slabs)
     proven_abs, need = [], []
     for key, lo, hi in slabs:
-        r = ab.prove(lo, hi, label)
+        r = ab.prove(lo, hi, label, int(ctx.params.get('abs_timeout_ms', 3000)))
         (proven_abs if r == 'unsat' else need).append(key)
+        if r == 'sat' and ab.candidate is not None:
+            # the rounding model is nearly exact: its model is a CANDIDATE input; it counts only if the REAL converters
+            # violate the condition on it (otherwise the slab goes to the exact encoding)
+            x = ab.candidate
+            got, shown = _ts_concrete_labels(direction, x)
+            if label in got:
+                wit = {'label': label, 'direction': direction, 'input': x if direction == 'x2p2x' else float(x).hex(),
+                       'input_repr': repr(x), 'found_by': 'z3 model of the binary64 rounding model, slab ' + key, 'real': shown}
+                return {'verdict': 'counterexample', 'label': label, 'witness': wit, 'replayed': True, 'reach': True,
+                        'detail': f'slab {key}: input {x!r} -> real converters give {shown}; violated: {got}',
+                        'queries': len(proven_abs) + len(need) + 27, 'solver_s': round(ab.be.solver_s, 1), 'engine': ENGINE_TS}
     exact_keys = [k for k, _, _ in slabs] if ctx.params.get('exact') == 'all' else \
         need + [k for k in ctx.params.get('crosscheck', []) if k not in need]
     jobs = []
@@ -264,19 +302,19 @@ def ob_ts(ctx):
             return {'verdict': 'counterexample', 'label': label, 'witness': wit, 'replayed': label in got, 'reach': True,
                     'detail': f'slab {key}: input {x!r} -> real converters give {shown}; violated: {got}', 'queries': queries,
                     'solver_s': solver_s, 'engine': ENGINE_TS, 'sample': info}
-    open_ = [k for k in need if res.get(k, {}).get('status') != 'unsat']
-    bad = [k for k, r in res.items() if r['status'] in ('error',)]
+    exact_unsat = [k for k, r in res.items() if r['status'] == 'unsat']
+    open_ = [k for k, _, _ in slabs if k not in proven_abs and k not in exact_unsat]
+    bad = [k for k, r in res.items() if r['status'] == 'error']
+    pending = [k for k, r in res.items() if r['status'] not in ('unsat', 'error')]
     out = {'reach': reach, 'queries': queries, 'solver_s': solver_s, 'engine': ENGINE_TS, 'sample': info,
-           'detail': f'{label}: {len(proven_abs)}/{len(slabs)} slabs refuted in the FP error model (z3), '
-                     f'{sum(1 for r in res.values() if r["status"] == "unsat")} slabs refuted exactly (cvc5 QF_BVFP); '
-                     f'translation validated on {len(samples)} inputs'}
+           'detail': f'{label}: {len(proven_abs)}/{len(slabs)} slabs refuted in the binary64 rounding model (z3), '
+                     f'{len(exact_unsat)} slabs refuted by the exact encoding (cvc5 QF_BVFP)'
+                     + (f'; exact cross-check not finished for {",".join(pending)}' if pending and not open_ else '')
+                     + f'; translation validated on {len(samples)} inputs'}
     if bad:
         out.update(verdict='inconclusive', reason='solver error in slabs ' + ','.join(bad) + ': ' + res[bad[0]]['raw'][-200:])
     elif open_:
         out.update(verdict='inconclusive', reason='no answer within the budget for slabs ' + ','.join(open_))
-    elif ctx.params.get('exact') == 'all' and any(r['status'] != 'unsat' for r in res.values()):
-        out.update(verdict='inconclusive', reason='exact cross-check incomplete: ' +
-                   ','.join(k for k, r in res.items() if r['status'] != 'unsat'))
     else:
         out['verdict'] = 'confirmed'
     return out
@@ -288,6 +326,197 @@ def _replay_ts(w):
     return got, shown
 
 
+# =============================================================================================== decimals (pysym, z3 Int/Real)
+
+ENGINE_DEC = 'pysym(z3 Int/Real)'
+DEC_STUBS = ['Decimal(sign, coefficient c, exponent e): number of coefficient digits nd and e are case-split (concrete), c is a solver '
+             'variable with 10^(nd-1) <= c < 10^nd; negative zero and zero with a positive exponent are excluded',
+             'str(Decimal) follows the documented rule: scientific notation iff e > 0 or e + nd - 1 < -6 (checked against the real '
+             'decimal module on every run); format(Decimal, "f") is positional notation',
+             'float(Decimal) = v + err, |err| <= |v| * 2^-53, err == 0 for integers up to 2^53 (over-approximation; a model is only '
+             'reported after it reproduced on the real converter)',
+             'round(x, k) and format(x, ".kf") are round-half-even on the exact value; the sign of a negative-zero result is not modelled']
+
+
+def _dec_cases(group):
+    sign, kind = group.split('.')
+    out = []
+    for nd in range(1, 19):
+        for e in range(-18, 19):
+            if nd + max(e, 0) > 18:
+                continue
+            sci = e > 0 or e + nd - 1 < -6
+            if (kind == 'sci') == sci:
+                out.append((sign == 'neg', nd, e))
+    return out
+
+
+def _dec_label(nd, e):
+    if e + nd - 1 < -6:
+        return 'decimal_small_value_lost'
+    if e > 0:
+        return 'decimal_large_value_changed_via_float'
+    return 'decimal_18th_digit_lost'
+
+
+def _dec_real(neg, c, e):
+    """REAL converter on Decimal(sign, c, e): -> (output string, violated labels)."""
+    from decimal import Decimal
+    from sdc11073.xml_types.dataconverters import DecimalConverter
+    d = Decimal((1 if neg else 0, tuple(int(ch) for ch in str(c)), e))
+    out = DecimalConverter.to_xml(d)
+    viol = []
+    if not isinstance(out, str) or 'e' in out or 'E' in out:
+        viol.append('decimal_exponent_notation_written')
+    else:
+        try:
+            same = Decimal(out) == d
+        except Exception:  # noqa: BLE001
+            same = False
+        if not same:
+            viol.append(_dec_label(len(str(c)), e))
+    return out, viol, str(d)
+
+
+def _dec_encode(be, c, neg, nd, e):
+    from sdc11073.xml_types.dataconverters import DecimalConverter
+    from vf import pysym
+    d = pysym.SymDecimal(neg, c, nd, e)
+    sym = pysym.Sym(DecimalConverter.to_xml, be, unroll=24, prune=True,
+                    inline={'cls._float_to_xml': DecimalConverter._float_to_xml, 'cls._decimal_to_xml': DecimalConverter._decimal_to_xml,
+                            'DecimalConverter._float_to_xml': DecimalConverter._float_to_xml,
+                            'DecimalConverter._decimal_to_xml': DecimalConverter._decimal_to_xml})
+    sym.be_domain = d.domain(be) + ([be.cmp('gt', c, 0)] if (neg or e > 0) else [])
+    for st_conds in [sym.be_domain]:
+        pass
+    paths = _dec_run(sym, d)
+    return d, sym, paths
+
+
+def _dec_run(sym, d):
+    from vf import pysym
+    st_env = {'cls': pysym.Opaque('cls'), 'py_value': d}
+    # the domain constraints prune infeasible forks during translation
+    st = pysym.State(env=dict(st_env), assumes=list(sym.be_domain))
+    return [pysym.Path(s, None if r is pysym.NORET else r) for s, r in sym._block(sym.fdef.body, st)]
+
+
+def _dec_out(ret):
+    from vf import pysym
+    if isinstance(ret, pysym.Head):
+        return ret.to_numstr()
+    return ret
+
+
+def ob_dec(ctx):
+    import z3
+    from vf import pysym
+    group = ctx.params['group']
+    cases = _dec_cases(group)
+    t0 = _time.time()
+    be = pysym.Z3Real()
+    c = z3.Int('c')
+    rng = _random.Random(3000 + (ctx.seed or 0))
+    reach = False
+    checked = validated = 0
+    skipped_labels = set()
+    for neg, nd, e in cases:
+        if _time.time() - t0 > ctx.timeout * 0.9:
+            return {'verdict': 'inconclusive', 'reason': f'budget exhausted after {checked}/{len(cases)} cases', 'engine': ENGINE_DEC,
+                    'queries': be.queries, 'solver_s': round(be.solver_s, 1)}
+        try:
+            d, sym, paths = _dec_encode(be, c, neg, nd, e)
+        except pysym.Unsupported as ex:
+            return {'verdict': 'inconclusive', 'reason': f'translation failed for case nd={nd} e={e}: {ex}', 'engine': ENGINE_DEC}
+        for conds, assumes in sym.unwind:
+            if be.check(conds + assumes)[0] != 'unsat':
+                return {'verdict': 'inconclusive', 'reason': f'unwinding bound 24 not sufficient (nd={nd}, e={e})', 'engine': ENGINE_DEC}
+        # --- the documented str(Decimal) rule used by the stub, against the real decimal module
+        lo = 1 if (nd == 1 and (neg or e > 0)) else (0 if nd == 1 else 10 ** (nd - 1))
+        for cv in {lo, 10 ** nd - 1, rng.randrange(lo, 10 ** nd)}:
+            real_out, _, dtext = _dec_real(neg, cv, e)
+            if ('E' in dtext) != d.is_sci():
+                return {'verdict': 'error', 'reason': f'str(Decimal) rule of the stub is wrong for {dtext}', 'engine': ENGINE_DEC}
+            # --- translator validation: the encoded path enabled for this coefficient yields the REAL output string
+            hits = []
+            for p in paths:
+                extra = [c == cv]
+                errs = [t for n, t in sym.nondet.items() if n.startswith('float_err')]
+                if errs:
+                    from decimal import Decimal
+                    dv = Decimal((1 if neg else 0, tuple(int(ch) for ch in str(cv)), e))
+                    extra.append(errs[0] == be.val(Fraction(float(dv)) - Fraction(dv)))
+                r, m = be.check(p.conds + p.assumes + extra)
+                if r == 'sat':
+                    hits.append((p, m))
+            if len(hits) != 1:
+                return {'verdict': 'error', 'reason': f'validation: {len(hits)} encoded paths enabled for {dtext}', 'engine': ENGINE_DEC}
+            p, m = hits[0]
+            o = _dec_out(p.ret)
+            enc = o.concrete(lambda t: be.model_value(m, t)) if isinstance(o, pysym.NumStr) else '<sci>'
+            if enc != real_out and not (enc.lstrip('-') == real_out.lstrip('-') and set(enc) <= set('-0.')):
+                return {'verdict': 'error', 'reason': f'validation: encoding gives {enc!r}, real to_xml({dtext}) gives {real_out!r}',
+                        'engine': ENGINE_DEC}
+            validated += 1
+        # --- the claim, per path
+        lab = _dec_label(nd, e)
+        for p in paths:
+            base = p.conds + p.assumes
+            r, m = be.check(base)
+            if r == 'unknown':
+                return {'verdict': 'inconclusive', 'reason': f'solver unknown (nd={nd}, e={e})', 'engine': ENGINE_DEC}
+            if r == 'unsat':
+                continue
+            reach = True
+            o = _dec_out(p.ret)
+            if not isinstance(o, pysym.NumStr):
+                what = 'decimal_exponent_notation_written' if isinstance(o, pysym.SciStr) else 'decimal_unexpected_result'
+                if what in ctx.exclude:
+                    skipped_labels.add(what)
+                    continue
+                cand = [be.model_value(m, c)]
+                viol = None
+            else:
+                if lab in ctx.exclude:
+                    skipped_labels.add(lab)        # exactly this assertion is skipped for the cases it names
+                    continue
+                what = lab
+                viol = o.value(be) != d.value(be)
+                cand = []
+                for hint in ([c % 2 == 1], [c % 10 != 0], []):
+                    r2, m2 = be.check(base + [viol] + hint)
+                    if r2 == 'unknown':
+                        return {'verdict': 'inconclusive', 'reason': f'solver unknown (nd={nd}, e={e})', 'engine': ENGINE_DEC}
+                    if r2 == 'sat':
+                        cand.append(be.model_value(m2, c))
+                if not cand:
+                    continue
+            for cv in cand:
+                real_out, got, dtext = _dec_real(neg, cv, e)
+                if what in got:
+                    wit = {'kind': 'dec', 'label': what, 'neg': neg, 'coefficient': str(cv), 'exponent': e, 'decimal': dtext,
+                           'real_to_xml': real_out}
+                    return {'verdict': 'counterexample', 'label': what, 'witness': wit, 'replayed': True, 'reach': True,
+                            'detail': f'DecimalConverter.to_xml(Decimal({dtext!r})) == {real_out!r}', 'queries': be.queries,
+                            'solver_s': round(be.solver_s, 1), 'engine': ENGINE_DEC}
+            if what != 'decimal_large_value_changed_via_float':
+                return {'verdict': 'counterexample', 'label': what, 'replayed': False, 'reach': True, 'engine': ENGINE_DEC,
+                        'witness': {'kind': 'dec', 'label': what, 'neg': neg, 'coefficient': str(cand[0]), 'exponent': e},
+                        'detail': f'model did not reproduce: real to_xml gives {real_out!r}'}
+            return {'verdict': 'inconclusive', 'engine': ENGINE_DEC, 'queries': be.queries,
+                    'reason': f'float(Decimal) over-approximation admits a value change for nd={nd}, e={e}, but {len(cand)} candidate '
+                              f'coefficients did not reproduce on the real converter'}
+        checked += 1
+    return {'verdict': 'confirmed', 'reach': reach, 'queries': be.queries, 'solver_s': round(be.solver_s, 1), 'engine': ENGINE_DEC,
+            'detail': f'{checked} (sign, digits, exponent) cases, coefficient symbolic; translation validated on {validated} concrete '
+                      f'Decimals' + (f'; assertions skipped as known findings: {sorted(skipped_labels)}' if skipped_labels else '')}
+
+
+def _replay_dec(w):
+    out, got, dtext = _dec_real(bool(w['neg']), int(w['coefficient']), int(w['exponent']))
+    return got, {'decimal': dtext, 'to_xml': out}
+
+
 # =============================================================================================== replay entry point
 
 def replay(ctx):
@@ -295,6 +524,8 @@ def replay(ctx):
     kind = w.get('kind', 'ts' if 'direction' in w else '?')
     if kind == 'ts':
         got, shown = _replay_ts(w)
+    elif kind == 'dec':
+        got, shown = _replay_dec(w)
     else:
         return {'verdict': 'error', 'label': 'unknown-witness-kind', 'reason': str(w)[:200]}
     lab = w.get('label')
